@@ -20,12 +20,14 @@ vars == <<i, done>>
 AllMfEntries(s) == UNION { { <<Full(m, e), e>> : e \in Ents(m) } : m \in MfSet(s) }
 PrefixesOf(p) == { SubSeq(p, 1, k) : k \in 1..(Len(p) - 1) }
 
+(* (a Manifest the harness's own reader could not parse - a lenient zone of C09, e.g. size +0 - *)
+(* may name paths the projection does not show: the three path errnos are then not judged)     *)
 (* something named by a Manifest (or the sub path given on the command line) lies beneath a   *)
 (* non-directory, names a directory where a file is needed, or does not exist                 *)
 Explains(s, sub, errno) ==
     LET ents == { x \in AllMfEntries(s) : x[2].tag \notin {"DIST", "TIMESTAMP"} }
         paths == { x[1] : x \in ents } \cup {sub} \cup MfPaths(s)
-    IN IF OddPaths(s) /\ errno \in {"ENOTDIR", "ENOENT", "EISDIR"} THEN TRUE ELSE
+    IN IF (OddPaths(s) \/ \E m \in MfSet(s) : ~m.ok) /\ errno \in {"ENOTDIR", "ENOENT", "EISDIR"} THEN TRUE ELSE
        CASE errno = "ENOTDIR" -> \E p \in paths : \E q \in PrefixesOf(p) \cup {p} : Kind(s, q) \in {"file", "other", "dangling"}
          [] errno = "ENOENT"  -> \E p \in paths : Kind(s, p) \in {"absent", "dangling"} \/ \E q \in PrefixesOf(p) : Kind(s, q) \in {"absent", "dangling"}
          [] errno = "EISDIR"  -> \E p \in paths : Kind(s, p) = "dir" /\ p # <<>>
